@@ -211,8 +211,9 @@ PROPS = {
                    "C19.encoder.lines.drain", "C19.replace.extend_replacement_borrow", "C19.cached.extend_map_borrow",
                    "C19.rope.unchecked.light", "C19.rope.unchecked.same_piece", "C19.rope.unchecked.same_piece_range",
                    "C19.rope.unchecked.pieces", "C19.rope.unchecked.first_piece_range", "C19.rope.unchecked.last_piece_range",
-                   "C19.cached_map_borrow_stays_valid"],
+                   "C19.cached_map_borrow_stays_valid", "C19.no_sanitizer_report"],
         also_release=False,
+        also_asan=True,
         rule="the rope programs of C16 (including piece-less and empty-piece ropes), the trees of C01 with multi-byte text and wild "
              "maps; every unsafe site must be reached and its precondition (evaluated by a guarded probe immediately before the "
              "operation) must hold; non-trivial = a probe site was reached",
